@@ -184,8 +184,10 @@ class DTWSettings:
             # Use the bound in the internal representation directly: a round trip through
             # the result transformation (sqrt, then square) can round the threshold below
             # the exact bound and prune an alignment that equals the Euclidean distance.
-            self.adj_max_dist = ed.distance(s1, s2, inner_dist=self.inner_dist, use_ndim=self.use_ndim,
-                                            keep_int_repr=True)
+            ub = ed.distance(s1, s2, inner_dist=self.inner_dist, use_ndim=self.use_ndim,
+                             keep_int_repr=True)
+            # A max_dist given together with use_pruning still applies
+            self.adj_max_dist = min(self.adj_max_dist, ub)
 
     def kwargs(self):
         return {
